@@ -204,4 +204,23 @@ theorem ear_clipping_tiles_convex (pts : Array (V2 K)) :
   obtain ⟨a, b, c, _⟩ := hidx t ht
   exact ⟨a, b, c, hpos t ht⟩
 
+/-! ## `hertel_mehlhorn` (point form) -/
+
+/-- **`hertel_mehlhorn` (points) is `hertel_mehlhorn_idx` mapped through the vertex buffer — every input.**  Same number of
+pieces, the `k`-th point piece is the `k`-th index piece with every index replaced by its vertex, and when the input
+triangles use valid indices (`< n`) so does every piece: the `vertices[idx as usize]` look-ups of the wrapper cannot go
+out of bounds. -/
+theorem hertel_mehlhorn_pts_spec (pts : Array (V2 K)) (tris : Array (Nat × Nat × Nat)) :
+    letI := fieldNum K sq
+    (hertelMehlhorn pts tris).size = (hertelMehlhornIdx pts tris).size ∧
+    (∀ k (h1 : k < (hertelMehlhorn pts tris).size) (h2 : k < (hertelMehlhornIdx pts tris).size),
+      (hertelMehlhorn pts tris)[k] = (hertelMehlhornIdx pts tris)[k].map (pt pts)) ∧
+    ((∀ t ∈ tris.toList, t.1 < pts.size ∧ t.2.1 < pts.size ∧ t.2.2 < pts.size) →
+      ∀ p ∈ (hertelMehlhornIdx pts tris).toList, ∀ x ∈ p.toList, x < pts.size) := by
+  refine ⟨by simp [hertelMehlhorn], fun k h1 h2 => by simp [hertelMehlhorn], ?_⟩
+  intro hidx p hp x hx
+  obtain ⟨t, ht, hxt⟩ := (hertel_mehlhorn_sound sq pts tris).2.2 p hp x hx
+  obtain ⟨a, b, c⟩ := hidx t ht
+  rcases hxt with rfl | rfl | rfl <;> assumption
+
 end C16
